@@ -85,7 +85,10 @@ def run_episode(args):
                     hostile_masks=profile.get("hostile_masks", True),
                     endings=profile.get("endings"), server_password=var.get("password"),
                     nicks=profile.get("nicks"), multi_prefix_rate=profile.get("mp_rate", 0.3),
-                    mode_weights=profile.get("mode_weights"))
+                    mode_weights=profile.get("mode_weights"),
+                    invalid_nicks=profile.get("invalid_nicks", False),
+                    empty_text=profile.get("empty_text", 0.0))
+        w.serial_noise = random.Random(seed ^ 0x5EA1) if profile.get("serial_noise") else None
         stop_on = profile.get("stop_on_violation", True)
         known = set(profile.get("known_signatures", ()))
         for i in range(steps):
@@ -129,6 +132,7 @@ def run_episode(args):
             res["deliveries"] = w.deliveries_checked
             res["snapshots"] = w.snapshots
             res["tail"] = w.history[-8:]
+            res["noise"] = dict(w.noise_kinds)
             if w.violations or res["inconclusive"]:
                 res["history"] = w.history[-400:]
                 res["transcripts"] = {str(cid): c.transcript[-60:] for cid, c in w.clients.items()}
